@@ -68,4 +68,31 @@ theorem affHash_lawful' : Lawful affHash where
   tag_sz m x := rfl
   tag_agg m x := by simp [affHash, AffIt.modify]
 
+theorem keyOnly_lawful' : Lawful keyOnly where
+  mul_assoc a b c := rfl
+  one_mul a := rfl
+  mul_one a := rfl
+  new_sz v := rfl
+  new_agg v := rfl
+  paG_one x := rfl
+  paG_mul x g h := rfl
+  paG_inj x e := rfl
+  actG_one m := rfl
+  actG_mul m g h := rfl
+  actG_inj m e := rfl
+  update_own x l r := rfl
+  update_pa x l r a := rfl
+  update_sz x l r := by cases l <;> cases r <;> simp [keyOnly] <;> omega
+  update_agg x l r := rfl
+  push_own0 p l r := rfl
+  push_pa0 p l r a := rfl
+  push_sz0 p l r := rfl
+  push_agg0 p l r := rfl
+  push_l p l r := ⟨l, rfl, rfl, fun _ => rfl, rfl, rfl⟩
+  push_r p l r := ⟨r, rfl, rfl, fun _ => rfl, rfl, rfl⟩
+  tag_own m x := rfl
+  tag_pa m x a := rfl
+  tag_sz m x := rfl
+  tag_agg m x := rfl
+
 end Rlib.Treap
